@@ -406,7 +406,7 @@ def _shapes_mgm2(tier, prop=None):
     for i in range(2, 6):
         add(dict(algo="mgm2", spec="chain3", stop_cycle=2, modes=["min"], offerers=["x2"], policy="random", sched_seed=i, interleave_start=bool(i % 2)))
     for roles in ([["x1", "x2"], ["x1"]], [["x2"], ["x2"]]):
-        add(dict(algo="mgm2", spec="chain3", stop_cycle=3, modes=["min"], offerers_by_cycle=roles))
+        add(dict(algo="mgm2", spec="chain3", stop_cycle=3, modes=["min"], offerers_by_cycle=roles, search_paths=150000))
     return s
 
 
